@@ -20,16 +20,16 @@ from . import c01
 
 
 def check(repo: Repo, R) -> None:
-    portdir_flipped(repo, R)
-    direction_table(repo, R)
-    flip_parity(repo, R)
-    naming(repo, R)
-    c01.bundle_conn_path(repo, R, "C10.5-both-sides-agree-on-members")
-    c01.copy_aliasing(repo, R, "C10.5-both-sides-agree-on-members")
+    R.run(portdir_flipped, repo, R)
+    R.run(direction_table, repo, R)
+    R.run(flip_parity, repo, R)
+    R.run(naming, repo, R)
+    R.run(c01.bundle_conn_path, repo, R, "C10.5-both-sides-agree-on-members")
+    R.run(c01.copy_aliasing, repo, R, "C10.5-both-sides-agree-on-members")
     from . import c02
     from .shared import Retag
     from .common import noreturn_set as _nrs
-    c02.guard_inventory(repo, Retag(R, lambda r, k: "C10.5-both-sides-agree-on-members" if "replace_bundle_conn" in k and "member" in k else None,
+    R.run(c02.guard_inventory, repo, Retag(R, lambda r, k: "C10.5-both-sides-agree-on-members" if "replace_bundle_conn" in k and "member" in k else None,
                                     "a connected bundle with a surplus (or a missing) member is flattened onto the instance: the extra signal dangles, or a flattened port is left open"), _nrs(repo))
     R.floor("C10.1-portdir-flipped", 1)
     R.floor("C10.2-direction-visibility-table", 1)
